@@ -225,7 +225,20 @@ pub fn range_arg(rng: &mut Rng, len: usize, n: usize, junk: u32) -> RangeSpec {
 
 fn word(rng: &mut Rng, sel: usize, letters: &[u8], weights: &[u32]) -> Vec<u8> {
     let l = rng.below(sel as u64 + 3) as usize;
-    (0..l).map(|_| letters[rng.weighted(weights)]).collect()
+    match rng.below(10) {
+        // long one-directional consumption (step-count thresholds)
+        0 => vec![b'n'; l],
+        1 => vec![b'b'; l],
+        // a jump (nth / nth_back, in range, zero, or far beyond the end) somewhere in the word
+        2 | 3 => {
+            let mut w: Vec<u8> = (0..l).map(|_| letters[rng.weighted(weights)]).collect();
+            let j = *rng.pick(b"tTuUoO");
+            let at = rng.below(w.len() as u64 + 1) as usize;
+            w.insert(at, j);
+            w
+        }
+        _ => (0..l).map(|_| letters[rng.weighted(weights)]).collect(),
+    }
 }
 
 impl GenState {
@@ -310,7 +323,7 @@ impl GenState {
                 let m = if rng.below(3) == 0 { n } else { *rng.pick(&DEQUE_NS) };
                 st.a = m + 16 * rng.below(8) as usize;
                 st.b = rng.below(8) as usize;
-                st.c = rng.weighted(&[6, 4, 1, 1, 1]);
+                st.c = rng.weighted(&[6, 4, 1, 1, 1, 2]);
                 st.vals = vals!(rng, rng.below(n as u64 + 2) as usize);
             }
             DropHand => st.a = rng.below(8) as usize,
